@@ -49,7 +49,9 @@ def textIsChord (u : Uni) (k : Key) : Bool :=
     * Ctrl + a character without a control code (digits 0 1 9, space, most punctuation, non-ASCII) and
       Ctrl+Shift: the legacy protocol has no encoding of the chord (xterm sends the plain character);
     * Ctrl + h i m [ : the C0 byte is BackSpace / Tab / Enter / Escape;
-    * Shift on a non-letter, Alt + a byte that starts an escape sequence, F13+, keypad, media keys;
+    * Shift on a non-letter, Alt + a byte that starts an escape sequence, F13+, media keys;
+    * keypad keys (key codes of their own) are not judged through this domain but through the keypad clause
+      `keypadJudgedAs` below (application-mode code, or as the event of the key the keypad key stands for);
     * events that are text productions (`textIsChord` false). -/
 def XtermDomain (u : Uni) (k : Key) : Bool :=
   (xtermLegacy k.keycode (xtermMods k) (shiftedOf u k) false).isSome &&
